@@ -26,7 +26,11 @@ from src.core.types import Violation
 
 def _utf8_safe(text: str) -> str:
     """Replace surrogate-escaped bytes (undecodable file names / contents) as the text and JSON outputs do."""
-    return text.encode("utf-8", errors="surrogateescape").decode("utf-8", errors="replace")
+    try:
+        return text.encode("utf-8", errors="surrogateescape").decode("utf-8", errors="replace")
+    except UnicodeEncodeError:
+        # A lone surrogate that does not stand for an undecodable byte (e.g. "\\ud83d" in a string literal)
+        return text.encode("utf-16", errors="surrogatepass").decode("utf-16", errors="replace")
 
 
 class SarifFormatter:
